@@ -35,7 +35,7 @@ def budget(tier):
 
 
 def explore(tier, seed, n):
-    cases = run_groups([(seed + 1500, i, a) for a in ALGOS for i in range(n)])
+    cases = run_groups([(seed + 1500, i, a) for a in ALGOS for i in range(n * (2 if a in ("POO", "GPO") else 1))])
     mism, n_ops = fw.compare(cases)
     return {"cases": cases, "mism": mism, "n_ops": n_ops}
 
